@@ -958,10 +958,16 @@ class Runner:
                     viol.append(('C03', 'simplify_no_invalid', ''))
                 s1 = str(x)
                 y = x.copy(); y.simplify()
-                if str(y) != s1:
-                    viol.append(('C03', 'simplify_idem', 'nongroup=%r: %r then %r' % (nongroup, s1, str(y))))
-                if str(self.A(s1)) != s1:
-                    viol.append(('C03', 'render_fixed_point', 'nongroup=%r: %r then %r' % (nongroup, s1, str(self.A(s1)))))
+                s2 = str(y)
+                if s2 != s1:
+                    z = y.copy(); z.simplify()
+                    same = T.run(s1, {})[0] == T.run(s2, {})[0]
+                    viol.append(('C03', 'simplify_idem', 'display_same=%r converges=%r: %r then %r' % (same, str(z) == s2, s1, s2)))
+                p1 = str(self.A(s1))
+                if p1 != s1:
+                    p2 = str(self.A(p1))
+                    same = T.run(s1, {})[0] == T.run(p1, {})[0]
+                    viol.append(('C03', 'render_fixed_point', 'display_same=%r converges=%r: %r then %r' % (same, p2 == p1, s1, p1)))
             viol += self.health(x, 'simplify')
         self.emit('simplify', inp, self.outcome_line(out, P.ok_astr), 'simplify %r' % (pre.render[0],), viol)
 
